@@ -42,7 +42,14 @@ def gen_file(
     """
     if overwrite or not os.path.exists(output_file):
         logger.info("-> %s", output_file)
-        gen_callback()
+        try:
+            gen_callback()
+        except BaseException:
+            # Do not leave a partially written file behind. A later run
+            # without overwrite would skip it as already generated.
+            if os.path.exists(output_file):
+                os.remove(output_file)
+            raise
         logger.info("     %s", success_message)
     else:
         logger.warning("-- NOT overwriting: %s", output_file)
